@@ -123,7 +123,7 @@ def render(raw, uns, prec):
 
 class C17(F.PropCheck):
     pid = 'C17'; gen_groups = ['MqttConsts']; prop_file = 'Properties_C17'
-    IN = {'CFG': 0, 'CONNECT': 1, 'SETPFX': 2, 'SETON': 3, 'RSFB': 4, 'VAL': 5, 'BRI': 6}
+    IN = {'CFG': 0, 'CONNECT': 1, 'SETPFX': 2, 'SETON': 3, 'RSFB': 4, 'VAL': 5, 'BRI': 6, 'FORM': 7}
     OUT = {0: 'PREFIX', 1: 'WIRE', 2: 'SETON', 3: 'RSFB', 4: 'VAL', 5: 'BRI'}
     quick_cases = 2500; thorough_cases = 100000
     trusted_extra = ['C17 driver harness/drv/c17.c (+ c16_mqtt_wrap.c, c16_mqtt_board.c): configuration fields written as raw images, '
@@ -132,7 +132,7 @@ class C17(F.PropCheck):
     assumptions = ['user name field and topic-prefix field contain a terminator (as the configuration page writes them)',
                    'number rendering: precision <= 20 (call sites use 1, 2, 3, 5)']
     rule = ('CONNECT: user-name lengths 0..254 x password lengths 0..maximum storable+ (split across Password field and the tail behind the user name, '
-            'stale bytes after terminators) x auth on/off x TLS x prefix lengths 0..49; parser: topics around <prefix>/channels/<N>/<command> '
+            'stale bytes after terminators) x auth on/off x TLS x prefix lengths 0..49; two/three-form histories through the real configuration page (long password, then empty password with a shorter/equal/longer user name) followed by CONNECT; parser: topics around <prefix>/channels/<N>/<command> '
             '(N 0..99999 and 10-40 digit numbers (k*2^32+n, around 2^31/2^32/2^63/2^64, long leading zeros), signs, dots, empty, wrong/missing separator after the prefix, missing/extra segments, prefix variants) x '
             'payload variants (case, truncation, numeric values with one defect at each position for set/closing_percentage, set/tilt, set/brightness, every single-byte substitution 0x00..0xFF at every position of every keyword; byte substitutions in the command segment); rendering: 64-bit values (boundaries, powers of ten, random) x precision 0..20 x signedness; '
             'distinct by sha256 of the event text')
@@ -160,6 +160,24 @@ class C17(F.PropCheck):
         guid = bytes(rng.getrandbits(8) for _ in range(16))
         tags = ['connect:' + ('noauth' if flags & 8 else 'auth'), 'pw:' + ('short' if pl < P else 'split' if pl - P < room - 1 else 'split-max')]
         return [('CFG', [flags], cfg_blob(uimg, pimg, pimg2, guid)), ('CONNECT', [], b'')], tags
+
+    def form(self, user, pw=None, extra=b''):
+        body = b'pro=1&sid=net&wpw=wifipass&mvr=10.0.0.1&usr=' + user + (b'&mwd=' + pw if pw is not None else b'') + extra + b'&rbt=0'
+        return b'POST / HTTP/1.1\r\nHost: 192.168.4.1\r\nContent-Type: application/x-www-form-urlencoded\r\nContent-Length: %d\r\n\r\n' % len(body) + body
+
+    def gen_forms(self, rng):
+        """(password >= 33 chars, name A) -> (password field empty/absent, name B shorter / equal / longer) -> CONNECT"""
+        c = consts(); P = c['PWD_MAXSIZE']
+        def txt(n): return bytes(rng.choice(b'abcdefghijklmnopqrstuvwxyzABCDEFGHIJKLMNOPQRSTUVWXYZ0123456789') for _ in range(n))
+        la = rng.choice([1, 4, 10, 20, 40]); pl = rng.choice([1, 10, P - 1, P, P + 1, P + 5, P + 20, P + 60, rng.randrange(1, 120)])
+        lb = rng.choice([0, 1, max(1, la - 3), la - 1 if la > 1 else 1, la, la + 1, la + 3, la + pl, la + 30, rng.randrange(1, 80)])
+        a, b, pw = txt(la), txt(max(1, lb)), txt(pl)
+        evs = [('FORM', [], self.form(a, pw))]
+        k = rng.random()
+        if k < 0.8: evs.append(('FORM', [], self.form(b, b'' if rng.random() < 0.6 else None)))
+        if k < 0.2: evs.append(('FORM', [], self.form(txt(rng.randrange(1, 60)), b'')))
+        evs.append(('CONNECT', [], b''))
+        return evs, ['forms:' + ('short' if pl < P else 'long') + ':' + ('one' if k >= 0.8 else 'B<A' if len(b) < la else 'B=A' if len(b) == la else 'B>A')]
 
     def gen_parser(self, rng):
         pfx = rng.choice([b'supla/devices/zam-row-01-a3a4a5', b'home/supla/devices/x-010203', b'p', b'a/b', bytes(rng.randrange(1, 256) for _ in range(rng.randrange(1, 30)))])
@@ -213,7 +231,8 @@ class C17(F.PropCheck):
         cases = []
         for i in range(n):
             k = rng.random()
-            if k < 0.3: evs, tags = self.gen_connect(rng)
+            if k < 0.08: evs, tags = self.gen_forms(rng)
+            elif k < 0.3: evs, tags = self.gen_connect(rng)
             elif k < 0.75: evs, tags = self.gen_parser(rng)
             else: evs, tags = self.gen_val(rng)
             cases.append(F.Case('%s%d' % (tier[0], i), evs, tags))
@@ -271,10 +290,28 @@ class C17(F.PropCheck):
             nonlocal oi
             if oi < len(outs) and outs[oi][0] == kind: oi += 1; return outs[oi - 1]
             return None
+        form_user = None; form_pw = None; forms = 0
         for (k, ints, data) in case.evs:
-            if k == 'CFG' and len(data) == E + P + c['PREFIX_SIZE'] + 16: cfgimg = bytes(data); flags = ints[0] & 255
+            if k == 'FORM':
+                forms += 1
+                m = re.search(rb'usr=([^&]*)', bytes(data)); m2 = re.search(rb'mwd=([^&]*)', bytes(data))
+                if m: form_user = m.group(1)
+                if m2 and m2.group(1): form_pw = m2.group(1)
+            elif k == 'CFG' and len(data) == E + P + c['PREFIX_SIZE'] + 16: cfgimg = bytes(data); flags = ints[0] & 255
             elif k == 'SETPFX': prefix = bytes(data)
             elif k == 'CONNECT':
+                if forms:
+                    po = nxt('PREFIX'); wo = nxt('WIRE')
+                    if po is None or wo is None: return v
+                    try: d = parse_connect(bytes(wo[2]))
+                    except ValueError as ex: v.append('CONNECT is not valid MQTT 3.1.1: %s' % ex); return v
+                    # judged only when the overflow part fits behind the (new) user name
+                    if form_user is not None and form_pw is not None and len(form_user) + 1 + max(0, len(form_pw) - P) + 1 <= E and len(form_user) < E - 1:
+                        if d['user'] != form_user: v.append('CONNECT user name is not the one stored by the last configuration form (%d vs %d bytes)' % (len(d['user'] or b''), len(form_user)))
+                        elif d['password'] != form_pw:
+                            v.append('CONNECT password is not the complete password stored through the configuration form (%d bytes sent, %d stored, %d form(s), user name %d bytes)' % (len(d['password'] or b''), len(form_pw), forms, len(form_user)))
+                    if v: return v
+                    continue
                 if cfgimg is None: cfgimg = b'\0' * (E + P + c['PREFIX_SIZE'] + 16)
                 uimg, pimg, fimg, guid = cfgimg[:E], cfgimg[E:E + P], cfgimg[E + P:E + P + c['PREFIX_SIZE']], cfgimg[-16:]
                 if b'\0' not in uimg or b'\0' not in fimg: return v     # outside the configuration page's output
@@ -357,6 +394,9 @@ class C17(F.PropCheck):
                     v.append('value %d (%s) with precision %d is not rendered as its exact decimal (got %d characters, expected %d)' % (raw if uns or raw < 2**63 else raw - 2**64, 'unsigned' if uns else 'signed', prec, len(o[2]), len(exp))); return v
         return v
 
+    def compare(self, case, mo, io):
+        if any(e[0] == 'FORM' for e in case.evs): return None     # the configuration page is outside the model: monitor only
+        return F.PropCheck.compare(self, case, mo, io)
     def finding_key(self, case, what): return None
     def nontrivial(self, case, io): return len(io[1]) > 0
 
